@@ -157,9 +157,9 @@ Ltac rwq := repeat match goal with
   end; cbn in *.
 Ltac fld0 := constructor; cbn -[push]; try assumption.
 
-Lemma cinv_step s l : cinv s -> cinv (step false s l).
+Lemma cinv_step s l : cinv s -> cinv (step VNow s l).
 Proof.
-  intro I. unfold step. destruct (enabled false s l) eqn:E; [|exact I].
+  intro I. unfold step. destruct (enabled VNow s l) eqn:E; [|exact I].
   destruct l; cbn [effect after_break];
   try (apply (cinv_ext s); [|exact I]; first [apply pop_ctl | repeat split; try reflexivity;
         match goal with |- context [if ?b then _ else _] => destruct b; reflexivity end]).
@@ -212,9 +212,9 @@ Proof.
   - intros h H. apply get_c_pop in H as [H|[H _]]; [eauto | discriminate].
 Qed.
 
-Lemma kinv_step s l : cinv s -> kinv s -> kinv (step false s l).
+Lemma kinv_step s l : cinv s -> kinv s -> kinv (step VNow s l).
 Proof.
-  intros I K. unfold step. destruct (enabled false s l) eqn:E; [|exact K].
+  intros I K. unfold step. destruct (enabled VNow s l) eqn:E; [|exact K].
   destruct l; cbn [effect after_break];
   try solve [apply (kinv_ext s); [reflexivity..|tauto|exact K]].
   - apply kinv_pop; exact K.
@@ -277,13 +277,13 @@ Qed.
 Lemma kinv_init : kinv init.
 Proof. constructor; cbn; intros; discriminate. Qed.
 
-Lemma inv_run s tr : cinv s -> kinv s -> cinv (run false s tr) /\ kinv (run false s tr).
+Lemma inv_run s tr : cinv s -> kinv s -> cinv (run VNow s tr) /\ kinv (run VNow s tr).
 Proof.
   revert s. induction tr as [|l tr IH]; intros s C K; [split; assumption|].
   cbn. apply IH; [apply cinv_step; exact C | apply kinv_step; assumption].
 Qed.
 
-Lemma reach_inv tr : cinv (run false init tr) /\ kinv (run false init tr).
+Lemma reach_inv tr : cinv (run VNow init tr) /\ kinv (run VNow init tr).
 Proof. apply inv_run; [exact cinv_init | exact kinv_init]. Qed.
 
 Lemma run_app old s a b : run old s (a ++ b) = run old (run old s a) b.
@@ -298,7 +298,7 @@ Proof.
   apply I3 in X. apply I4 in X. rewrite X in I5. exact (I5 Logic.I).
 Qed.
 
-Theorem cause_before_close : forall tr, let s := run false init tr in
+Theorem cause_before_close : forall tr, let s := run VNow init tr in
   front_closed s = true -> (exists c, reason s = Some c) \/ dropped s = true \/ h_recvend s = true.
 Proof.
   intros tr s F. destruct (closed_has_cause s (proj1 (reach_inv tr)) F) as [A|A]; [|right; exact A].
@@ -306,18 +306,18 @@ Proof.
 Qed.
 
 (* which exits record a cause: whatever the watcher receives first *)
-Theorem reason_is_first_report : forall tr c, let s := run false init tr in
+Theorem reason_is_first_report : forall tr c, let s := run VNow init tr in
   reason s = Some c -> h_first s = Some (Some c).
 Proof. intros tr c s R. exact (proj2 (c_reason s (proj1 (reach_inv tr)) c R)). Qed.
 
 (* ---------- C09_no_placeholder ---------- *)
-Theorem no_placeholder : forall tr h, let s := run false init tr in
+Theorem no_placeholder : forall tr h, let s := run VNow init tr in
   h_recvend s = false -> get_c s h <> Some (CDone OPlaceholder).
 Proof.
   intros tr h s R G. pose proof (k_ph s (proj2 (reach_inv tr)) h G). congruence.
 Qed.
 
-Theorem observed_cause_is_reason : forall tr h c, let s := run false init tr in
+Theorem observed_cause_is_reason : forall tr h c, let s := run VNow init tr in
   get_c s h = Some (CDone (OCause c)) -> reason s = Some c /\ h_first s = Some (Some c).
 Proof.
   intros tr h c s G. pose proof (k_cause s (proj2 (reach_inv tr)) h c G) as R.
@@ -328,34 +328,37 @@ Qed.
 Definition is_pending (c : cpc) : bool := match c with CQueued | CInMgr | CReadErr => true | _ => false end.
 
 Lemma step_readerr s h c : get_c s h = Some CReadErr -> front_closed s = true -> reason s = Some c ->
-  get_c (step false s (LReadErr h)) h = Some (CDone (OCause c)).
+  get_c (step VNow s (LReadErr h)) h = Some (CDone (OCause c)).
 Proof.
   intros G F R. unfold step. cbn [enabled]. rewrite G, F. cbn [is_readerr andb effect]. rewrite R. apply get_set_same.
 Qed.
 
-Lemma finish_pending s h c x : sp s = SExited -> rp s = RExited -> front_closed s = true -> reason s = Some c ->
+Lemma finish_pending s h c x : sp_closing_b (sp s) = true -> rp s = RExited -> front_closed s = true -> reason s = Some c ->
   get_c s h = Some x -> is_pending x = true ->
-  get_c (run false s [LCallerDropped h; LReadErr h]) h = Some (CDone (OCause c)).
+  get_c (run VNow s [LCallerDropped h; LReadErr h]) h = Some (CDone (OCause c)).
 Proof.
-  intros S R F Rs G P. cbn. unfold step at 2. unfold enabled, sp_exited, rp_exited. rewrite G, S, R.
-  destruct x; try discriminate P; cbn [andb].
-  - cbn [effect]. apply step_readerr; [apply get_set_same | exact F | exact Rs].
-  - cbn [effect]. apply step_readerr; [apply get_set_same | exact F | exact Rs].
+  intros S R F Rs G P. cbn [run fold_left].
+  assert (E1 : step VNow s (LCallerDropped h) = match x with CReadErr => s | _ => set_c s h CReadErr end).
+  { unfold step. cbn [enabled]. unfold sender_let_go, rp_exited. cbn [early_drop]. rewrite G, S, R.
+    destruct x; try discriminate P; reflexivity. }
+  rewrite E1. destruct x; try discriminate P.
+  - apply step_readerr; [apply get_set_same | exact F | exact Rs].
+  - apply step_readerr; [apply get_set_same | exact F | exact Rs].
   - apply step_readerr; assumption.
 Qed.
 
 Lemma finish_new s h c (l : label) : (l = LNewCall h \/ l = LOnDisc h) ->
   dropped s = false -> front_closed s = true -> reason s = Some c -> get_c s h = None ->
-  get_c (run false s [l; LReadErr h]) h = Some (CDone (OCause c)).
+  get_c (run VNow s [l; LReadErr h]) h = Some (CDone (OCause c)).
 Proof.
   intros L D F Rs G. cbn. unfold step at 2.
-  assert (E : enabled false s l = true) by (destruct L; subst l; cbn; rewrite D, G; reflexivity).
+  assert (E : enabled VNow s l = true) by (destruct L; subst l; cbn; rewrite D, G; reflexivity).
   rewrite E.
-  assert (X : effect false s l = set_c s h CReadErr) by (destruct L; subst l; cbn; rewrite ?F; reflexivity).
+  assert (X : effect VNow s l = set_c s h CReadErr) by (destruct L; subst l; cbn; rewrite ?F; reflexivity).
   rewrite X. apply step_readerr; [apply get_set_same | exact F | exact Rs].
 Qed.
 
-Theorem all_pending_fail_with_cause : forall tr, let s := run false init tr in
+Theorem all_pending_fail_with_cause : forall tr, let s := run VNow init tr in
   sp s = SExited -> rp s = RExited -> dropped s = false -> h_recvend s = false ->
   exists c, reason s = Some c /\ h_first s = Some (Some c) /\ is_connected s = false /\
     forall h,
@@ -364,9 +367,9 @@ Theorem all_pending_fail_with_cause : forall tr, let s := run false init tr in
       | Some (CDone (OCause c')) => c' = c
       | Some (CDone OPlaceholder) => False
       | Some CGone => False
-      | Some _ => get_c (run false s [LCallerDropped h; LReadErr h]) h = Some (CDone (OCause c))
-      | None => get_c (run false s [LNewCall h; LReadErr h]) h = Some (CDone (OCause c)) /\
-                get_c (run false s [LOnDisc h; LReadErr h]) h = Some (CDone (OCause c))
+      | Some _ => get_c (run VNow s [LCallerDropped h; LReadErr h]) h = Some (CDone (OCause c))
+      | None => get_c (run VNow s [LNewCall h; LReadErr h]) h = Some (CDone (OCause c)) /\
+                get_c (run VNow s [LOnDisc h; LReadErr h]) h = Some (CDone (OCause c))
       end.
 Proof.
   intros tr s S R D E. destruct (reach_inv tr) as [C K]. fold s in C, K.
@@ -376,9 +379,9 @@ Proof.
   split; [reflexivity|]. split; [exact (proj2 (c_reason s C c Rs))|]. split; [unfold is_connected; rewrite F; reflexivity|].
   intro h. destruct (get_c s h) as [x|] eqn:G.
   - destruct x as [| | |[|c'|]|].
-    + eapply finish_pending; eauto.
-    + eapply finish_pending; eauto.
-    + eapply finish_pending; eauto.
+    + eapply finish_pending; eauto; rewrite S; reflexivity.
+    + eapply finish_pending; eauto; rewrite S; reflexivity.
+    + eapply finish_pending; eauto; rewrite S; reflexivity.
     + exact Logic.I.
     + pose proof (k_cause s K h c' G). congruence.
     + pose proof (k_ph s K h G). congruence.
@@ -392,7 +395,7 @@ Local Open Scope N_scope.
 Lemma push_pcs s r : sp (push s r) = sp s /\ rp (push s r) = rp s /\ wp (push s r) = wp s.
 Proof. unfold push. destruct (rx_closed s); cbn; tauto. Qed.
 
-Lemma mu_step old s l :
+Lemma mu_step (old : variant) s l :
   (mu (step old s l) <= mu s)%nat /\
   (is_proto l = true -> enabled old s l = true -> (mu (step old s l) < mu s)%nat).
 Proof.
@@ -427,11 +430,11 @@ Qed.
 
 (* no deadlock: once the shutdown has started, some protocol step is enabled until all three tasks are gone
    (the completion of the transport's close() counts as a protocol step: slow = false) *)
-Lemma next_proto_none s : cinv s -> started s = true -> next_proto false false s = None -> all_exited s = true.
+Lemma next_proto_none s : cinv s -> started s = true -> next_proto VNow false s = None -> all_exited s = true.
 Proof.
   intros [I1 I2 I3 I4 I5 I6 I7 I8 I9 I10 I11 I12 I13] St. unfold next_proto.
   repeat match goal with
-  | |- context [if enabled false s ?x then _ else _] => destruct (enabled false s x) eqn:?; [discriminate|]
+  | |- context [if enabled VNow s ?x then _ else _] => destruct (enabled VNow s x) eqn:?; [discriminate|]
   end. intros _.
   unfold enabled, started, all_exited, sp_is_loop, rp_is_loop, sp_exited, rp_exited, can_push, is_none in *.
   destruct (wp s) eqn:W; try discriminate.
@@ -453,47 +456,48 @@ Proof.
 Qed.
 
 Lemma drive_exits fuel : forall s, cinv s -> started s = true -> (mu s <= fuel)%nat ->
-  all_exited (drive false false fuel s) = true.
+  all_exited (drive VNow false fuel s) = true.
 Proof.
   induction fuel as [|f IH]; intros s C St Le.
   - cbn. apply mu_zero. lia.
-  - cbn. destruct (next_proto false false s) as [l|] eqn:N.
+  - cbn. destruct (next_proto VNow false s) as [l|] eqn:N.
     + destruct (next_proto_sound _ _ _ _ N) as [P E].
-      destruct (mu_step false s l) as [_ Lt]. specialize (Lt P E). pose proof (mu_bound s).
+      destruct (mu_step VNow s l) as [_ Lt]. specialize (Lt P E). pose proof (mu_bound s).
       apply IH; [apply cinv_step; exact C | apply lt_started; lia | lia].
     + apply next_proto_none; assumption.
 Qed.
 
-Theorem progress : forall tr, let s := run false init tr in
+Theorem progress : forall tr, let s := run VNow init tr in
   started s = true ->
   (mu s <= 11)%nat /\
-  (forall l, (mu (step false s l) <= mu s)%nat) /\
-  (forall l, is_proto l = true -> enabled false s l = true -> (mu (step false s l) < mu s)%nat) /\
+  (forall l, (mu (step VNow s l) <= mu s)%nat) /\
+  (forall l, is_proto l = true -> enabled VNow s l = true -> (mu (step VNow s l) < mu s)%nat) /\
   (mu s = 0%nat <-> all_exited s = true) /\
-  ((mu s > 0)%nat -> exists l, is_proto l = true /\ enabled false s l = true) /\
-  all_exited (drive false false (mu s) s) = true.
+  ((mu s > 0)%nat -> exists l, is_proto l = true /\ enabled VNow s l = true) /\
+  all_exited (drive VNow false (mu s) s) = true.
 Proof.
   intros tr s St. destruct (reach_inv tr) as [C _]. fold s in C.
-  split; [apply mu_bound|]. split; [intro l; apply (mu_step false s l)|].
-  split; [intro l; apply (mu_step false s l)|]. split; [apply mu_zero|].
+  split; [apply mu_bound|]. split; [intro l; apply (mu_step VNow s l)|].
+  split; [intro l; apply (mu_step VNow s l)|]. split; [apply mu_zero|].
   split; [|apply drive_exits; auto].
-  intro Pos. destruct (next_proto false false s) as [l|] eqn:N.
+  intro Pos. destruct (next_proto VNow false s) as [l|] eqn:N.
   - exists l. eapply next_proto_sound; exact N.
   - apply (next_proto_none s C St) in N. apply mu_zero in N. lia.
 Qed.
 
-(* ---------- while the transport's close() has not completed, calls registered in the manager stay pending ---------- *)
+(* ---------- BEFORE the repair (VLateDrop: queue and manager handle dropped only when send_task returns): while the
+   transport's close() has not completed, calls registered in the manager stay pending ---------- *)
 Lemma blocked_step s l h : l <> LSTransportClosed -> l <> LClientDrop ->
   sp s = SClosing -> rp s <> RLoop -> get_c s h = Some CInMgr ->
-  let s' := step false s l in sp s' = SClosing /\ rp s' <> RLoop /\ get_c s' h = Some CInMgr.
+  let s' := step VLateDrop s l in sp s' = SClosing /\ rp s' <> RLoop /\ get_c s' h = Some CInMgr.
 Proof.
-  intros N1 N2 S R G. unfold step. destruct (enabled false s l) eqn:E; [|auto].
+  intros N1 N2 S R G. unfold step. destruct (enabled VLateDrop s l) eqn:E; [|auto].
   destruct (pop_ctl s) as (P1&P2&P3&_).
   assert (GP : forall r, get_c (push s r) h = get_c s h) by (intro r; unfold push; destruct (rx_closed s); reflexivity).
   assert (NE : forall k x, get_c s k <> Some CInMgr -> get_c (set_c s k x) h = Some CInMgr).
   { intros k x D. rewrite get_set. destruct (N.eqb h k) eqn:X; [apply N.eqb_eq in X; subst; congruence | exact G]. }
   destruct l; try congruence; cbn [effect after_break];
-    unfold enabled, sp_is_loop, rp_is_loop, sp_exited, rp_exited in E; rewrite ?S in E; try discriminate E.
+    unfold enabled, sender_let_go, sp_is_loop, rp_is_loop, sp_exited, rp_exited in E; cbn [early_drop] in E; rewrite ?S in E; try discriminate E.
   all: try solve [destruct (rp s); try congruence; discriminate E].
   all: try solve [destruct (get_c s h0) as [[]|]; cbn in E; discriminate E].
   all: try solve [destruct (get_c s h0) as [[]|] eqn:G0; try discriminate E;
@@ -509,7 +513,7 @@ Qed.
 
 Lemma blocked_run tr : forall s h, ~ In LSTransportClosed tr -> ~ In LClientDrop tr ->
   sp s = SClosing -> rp s <> RLoop -> get_c s h = Some CInMgr ->
-  let s' := run false s tr in sp s' = SClosing /\ get_c s' h = Some CInMgr.
+  let s' := run VLateDrop s tr in sp s' = SClosing /\ get_c s' h = Some CInMgr.
 Proof.
   induction tr as [|l tr IH]; intros s h N1 N2 S R G; [split; assumption|].
   cbn. destruct (blocked_step s l h) as (S'&R'&G'); auto.
@@ -522,24 +526,92 @@ Qed.
 Definition tr_blocked : list label :=
   [LNewCall 1; LSendOk; LRecvFault; LRReport; LWRecv; LWStore; LWExit; LRExit; LSNotice; LSReport; LSClosedSeen; LSCloseFront].
 
-Lemma blocked_witness : let s := run false init tr_blocked in
+Lemma blocked_witness : let s := run VLateDrop init tr_blocked in
   sp s = SClosing /\ rp s = RExited /\ get_c s 1 = Some CInMgr /\ reason s = Some CRecv /\ front_closed s = true.
+Proof. vm_compute. repeat split. Qed.
+
+(* ---------- AFTER the repair (VNow): nothing pending waits for the transport's close() ---------- *)
+Definition live (c : cause) (h : handle) (s : state) : Prop :=
+  cinv s /\ sp_closing_b (sp s) = true /\ rp s = RExited /\ reason s = Some c /\ front_closed s = true /\
+  (get_c s h = Some CQueued \/ get_c s h = Some CInMgr \/ get_c s h = Some CReadErr \/ get_c s h = Some (CDone (OCause c))).
+
+Lemma live_step c h s l : l <> LClientDrop -> live c h s -> live c h (step VNow s l).
+Proof.
+  intros NL (C & S & R & Rs & F & G).
+  split; [apply cinv_step; exact C|].
+  unfold step. destruct (enabled VNow s l) eqn:E; [|repeat split; assumption].
+  assert (W : wp_after (wp s)) by (exact (proj1 (c_reason s C c Rs))).
+  assert (GS : forall k x, N.eqb h k = false -> 
+           (get_c (set_c s k x) h = Some CQueued \/ get_c (set_c s k x) h = Some CInMgr \/
+            get_c (set_c s k x) h = Some CReadErr \/ get_c (set_c s k x) h = Some (CDone (OCause c)))).
+  { intros k x X. rewrite get_set, X. exact G. }
+  destruct l; try congruence; cbn [effect after_break old_order];
+    unfold enabled, sender_let_go, sp_is_loop, rp_is_loop, sp_exited, rp_exited in E; cbn [early_drop] in E; rewrite ?R in E;
+    try (destruct (sp s) eqn:Q; try discriminate S; try discriminate E).
+  all: try solve [destruct (wp s); cbn in *; try contradiction; discriminate E].
+  all: try solve [repeat match goal with |- context [match ?x with _ => _ end] => destruct x end;
+                  unfold get_c in *; cbn; rewrite ?Q; cbn; repeat split; assumption].
+  all: rewrite ?F; cbn [sp rp reason front_closed set_c set_callers]; rewrite ?Q; cbn [sp_closing_b].
+  all: (split; [reflexivity|]); (split; [exact R|]); (split; [exact Rs|]); (split; [exact F|]).
+  all: rewrite get_set; destruct (N.eqb h h0) eqn:X; [apply N.eqb_eq in X; subst h0 | exact G].
+  all: rewrite ?Rs; tauto.
+Qed.
+
+Lemma live_run c h tr : forall s, ~ In LClientDrop tr -> live c h s -> live c h (run VNow s tr).
+Proof.
+  induction tr as [|l tr IH]; intros s N L; [exact L|].
+  cbn. apply IH; [intro X; apply N; right; exact X|]. apply live_step; [intro X; apply N; left; auto | exact L].
+Qed.
+
+Lemma live_finish c h s : live c h s ->
+  get_c (run VNow s [LCallerDropped h; LReadErr h]) h = Some (CDone (OCause c)).
+Proof.
+  intros (C & S & R & Rs & F & [G|[G|[G|G]]]).
+  - eapply finish_pending; eauto.
+  - eapply finish_pending; eauto.
+  - eapply finish_pending; eauto.
+  - cbn [run fold_left]. unfold step. cbn [enabled]. rewrite ?G; cbn [is_readerr andb]; rewrite ?G; cbn [is_readerr andb]; first [exact G | reflexivity].
+Qed.
+
+(* once the reason is recorded, the front channel closed and the read task gone, every caller that is queued,
+   registered in the manager or inside read_error completes with that cause by its own two steps after ANY
+   continuation in which the client is not dropped -- in particular those that never complete the transport's close() *)
+Theorem pending_fail_without_transport_close : forall tr h c, let s := run VNow init tr in
+  reason s = Some c -> front_closed s = true -> rp s = RExited ->
+  (get_c s h = Some CQueued \/ get_c s h = Some CInMgr \/ get_c s h = Some CReadErr) ->
+  forall tr', ~ In LClientDrop tr' ->
+    let s' := run VNow s tr' in
+    get_c (run VNow s' [LCallerDropped h; LReadErr h]) h = Some (CDone (OCause c)).
+Proof.
+  intros tr h c s Rs F R G tr' N s'. destruct (reach_inv tr) as [C _]. fold s in C.
+  apply live_finish. apply live_run; [exact N|].
+  assert (SC : sp_closing_b (sp s) = true).
+  { pose proof (proj1 (c_front s C) F) as X. destruct (sp s); try contradiction; reflexivity. }
+  unfold live. tauto.
+Qed.
+
+(* non-vacuity: the transport's close() never completes, the pending call still fails with the cause *)
+Lemma no_wait_example :
+  let s := run VNow init tr_blocked in
+  sp s = SClosing /\ reason s = Some CRecv /\ get_c s 1 = Some CInMgr /\
+  sp (run VNow s [LNewCall 2; LRecvFault; LCallerDropped 1; LReadErr 1]) = SClosing /\
+  get_c (run VNow s [LNewCall 2; LRecvFault; LCallerDropped 1; LReadErr 1]) 1 = Some (CDone (OCause CRecv)).
 Proof. vm_compute. repeat split. Qed.
 
 (* ---------- the OLD send_task epilogue: close the front channel, close the transport, then report ---------- *)
 Definition tr_old : list label := [LNewCall 1; LSendFault; LSCloseFront; LNewCall 2; LReadErr 2].
 
 Lemma old_order_placeholder :
-  get_c (run true init tr_old) 2 = Some (CDone OPlaceholder) /\ h_recvend (run true init tr_old) = false /\
-  dropped (run true init tr_old) = false /\
-  front_closed (run true init [LNewCall 1; LSendFault; LSCloseFront]) = true /\
-  reason (run true init [LNewCall 1; LSendFault; LSCloseFront]) = None.
+  get_c (run VOldOrder init tr_old) 2 = Some (CDone OPlaceholder) /\ h_recvend (run VOldOrder init tr_old) = false /\
+  dropped (run VOldOrder init tr_old) = false /\
+  front_closed (run VOldOrder init [LNewCall 1; LSendFault; LSCloseFront]) = true /\
+  reason (run VOldOrder init [LNewCall 1; LSendFault; LSCloseFront]) = None.
 Proof. vm_compute. repeat split. Qed.
 
 (* the same schedule on the current code: the late call is merely queued, and fails with the cause *)
 Lemma new_order_same_schedule :
-  get_c (run false init tr_old) 2 = Some CQueued /\
-  get_c (run false init (tr_old ++ [LSReport; LWRecv; LWStore; LWExit; LSClosedSeen; LSCloseFront; LRNotice; LRReport; LRExit;
+  get_c (run VNow init tr_old) 2 = Some CQueued /\
+  get_c (run VNow init (tr_old ++ [LSReport; LWRecv; LWStore; LWExit; LSClosedSeen; LSCloseFront; LRNotice; LRReport; LRExit;
                                     LSTransportClosed; LCallerDropped 2; LReadErr 2])) 2 = Some (CDone (OCause CSend)).
 Proof. vm_compute. split; reflexivity. Qed.
 
@@ -547,7 +619,7 @@ Proof. vm_compute. split; reflexivity. Qed.
 Definition tr_recvend : list label :=
   [LRecvEnd; LRReport; LWRecv; LWStore; LWExit; LSNotice; LSReport; LSClosedSeen; LSCloseFront; LNewCall 1; LReadErr 1].
 
-Lemma recv_end_placeholder : get_c (run false init tr_recvend) 1 = Some (CDone OPlaceholder).
+Lemma recv_end_placeholder : get_c (run VNow init tr_recvend) 1 = Some (CDone OPlaceholder).
 Proof. vm_compute. reflexivity. Qed.
 
 
@@ -684,9 +756,9 @@ Qed.
 
 (* ================= statements used by Props/C09.v ================= *)
 Lemma pending_blocked_refuted :
-  exists tr h, let s := run false init tr in
+  exists tr h, let s := run VLateDrop init tr in
     reason s = Some CRecv /\ front_closed s = true /\ rp s = RExited /\ get_c s h = Some CInMgr /\
-    forall tr', ~ In LSTransportClosed tr' -> ~ In LClientDrop tr' -> get_c (run false s tr') h = Some CInMgr.
+    forall tr', ~ In LSTransportClosed tr' -> ~ In LClientDrop tr' -> get_c (run VLateDrop s tr') h = Some CInMgr.
 Proof.
   exists tr_blocked, 1. destruct blocked_witness as (S & R & G & Rs & F). cbv zeta.
   repeat split; try assumption.
@@ -694,11 +766,11 @@ Proof.
 Qed.
 
 Lemma old_order_refuted :
-  exists tr h, let s := run true init tr in
+  exists tr h, let s := run VOldOrder init tr in
     get_c s h = Some (CDone OPlaceholder) /\ h_recvend s = false /\ dropped s = false.
 Proof. exists tr_old, 2. destruct old_order_placeholder as (A & B & C & _). cbv zeta. auto. Qed.
 
-Lemma recv_end_refuted : exists tr h, get_c (run false init tr) h = Some (CDone OPlaceholder).
+Lemma recv_end_refuted : exists tr h, get_c (run VNow init tr) h = Some (CDone OPlaceholder).
 Proof. exists tr_recvend, 1. exact recv_end_placeholder. Qed.
 
 Lemma old_overflow_refuted :
@@ -710,7 +782,7 @@ Proof.
 Qed.
 
 Lemma fault_run_example :
-  let s := run false init (tr_blocked ++ [LSTransportClosed; LCallerDropped 1; LReadErr 1; LOnDisc 2; LReadErr 2]) in
+  let s := run VNow init (tr_blocked ++ [LSTransportClosed; LCallerDropped 1; LReadErr 1; LOnDisc 2; LReadErr 2]) in
   all_exited s = true /\ get_c s 1 = Some (CDone (OCause CRecv)) /\ get_c s 2 = Some (CDone (OCause CRecv)) /\
-  is_connected s = false /\ started (run false init [LRecvFault]) = true /\ mu (run false init [LRecvFault]) = 10%nat.
+  is_connected s = false /\ started (run VNow init [LRecvFault]) = true /\ mu (run VNow init [LRecvFault]) = 10%nat.
 Proof. vm_compute. repeat split. Qed.
